@@ -18,6 +18,9 @@ Case format:
            calls `U<int>` = PushWait(v, d), `O` = PopWait(d) with d > 0: a sequence of
            Push / Pop attempts of the machine, continued or ended by `waitDecide`
            (Model/C01Wait.lean) after every attempt; result `ret pushw <b>` / `ret popw <v> <b>`
+  header  `@ C01 races <cap> <fill> T <call>… T …`, line `search`: all interleavings of the
+           accesses extracted from the source are searched for a data race; answer
+           `race-free states=<n>` or `race after schedule […] :: t<i> …: <access> || t<j> …: <access>`
   header  `@ C01 ringc <prov> <pcap> <pfill> <cap> <warp> <fill> T …`  (re-configuration)
            prov 1: tmpl := NewSync(pcap); Push 9001..9000+pfill; r := tmpl (struct copy);
                    r.Init(cap); then as `ring` on r — `final` also observes tmpl
@@ -30,6 +33,7 @@ Case format:
 -/
 import Golib.Model.C01Ring
 import Golib.Model.C01Wait
+import Golib.Model.C01Races
 
 namespace Golib.C01
 open Golib.Proto
@@ -273,6 +277,18 @@ def runRingCase (suffix : String) (hdr : List String) (ops : List String) : List
 def runCase (hdr : List String) (ops : List String) : List String :=
   match hdr with
   | "ring" :: rest => runRingCase "" rest ops
+  | "races" :: capS :: fillS :: rest =>
+    -- `@ C01 races <cap> <fill> T <call>… T …` + lines `search`: exhaustive race search on
+    -- the access order extracted from the source (Model/C01Races.lean)
+    match capS.toNat?, fillS.toNat?, splitProgs rest with
+    | some cap, some fill, some groups =>
+      match groups.mapM (fun g => g.mapM parseCall) with
+      | some progs =>
+        if 2 ≤ cap ∧ cap ≤ 8 ∧ fill ≤ cap then
+          "ok" :: ops.map fun l => if l = "search" then Races.search cap fill progs else "bad-op"
+        else bad ops
+      | none => bad ops
+    | _, _, _ => bad ops
   | "ringc" :: prov :: pcapS :: pfillS :: rest =>
     match prov.toNat?, pcapS.toNat?, pfillS.toNat? with
     | some pv, some pcap, some pfill =>
